@@ -3,14 +3,14 @@
 Correspondence: the real TaskManager / core.run_once / core.run driven under a virtual clock
 (bacpypes.task._time replaced) against the Gallina model coq/theories/Sched.v + Deferred.v,
 and the direct, implementation-only predicate (a bookkeeping reference of what is pending)."""
-import itertools, logging, signal
+import itertools, logging, signal, sys
 from fractions import Fraction as F
 from core import Case
 
 PROP = 'C14'
-COQ_TARGETS = ['theories/DeferredFacts.vo', 'theories/SchedFacts.vo', 'theories/SchedThms.vo', 'theories/SchedOrder.vo', 'theories/SchedRun.vo', 'theories/SchedC14.vo']
+COQ_TARGETS = ['theories/DeferredFacts.vo', 'theories/SchedFacts.vo', 'theories/SchedThms.vo', 'theories/SchedPassive.vo', 'theories/SchedOrder.vo', 'theories/SchedRun.vo', 'theories/SchedC14.vo']
 COQ_IMPORTS = 'From Bac Require Import Base Deferred Sched.'
-RULE = ('cases: one case = the whole observable outcome (event trace of fire/call/raise/API-error, heap in pop order with '
+RULE_BASE = ('cases: one case = the whole observable outcome (event trace of fire/call/raise/API-error, heap in pop order with '
         'counters, isScheduled/taskTime of every task, deferredFns) of a history run on the real TaskManager under a virtual '
         'clock and on the model.  (A) every op sequence of length <= 3 (quick) / <= 4 plus 30% of length 5 (thorough) over 2 one-shot tasks and a '
         '15-letter alphabet {install at 1|2, install after 1, re-install, suspend, resume} x task + {advance 1, poll, run_once} '
@@ -24,12 +24,20 @@ TRUSTED = ['models coq/theories/Sched.v, Deferred.v written by hand after task.p
            'heapq (pop order = sorted order of (time, counter)) and binary64 arithmetic of RecurringTask.install_task: modelled exactly '
            '(rationals), compared by tick / slot index only',
            'asyncore.loop(timeout=0, count=1) with only the TaskManager trigger registered returns without side effects on the schedule']
-ASSUMPTIONS = ['single thread; callbacks only record, defer and raise (they do not install or suspend tasks themselves)',
+RULE = RULE_BASE
+ASSUMPTIONS = ['single thread; callbacks record, defer functions, call the _Task API (install/suspend/resume of any task) and raise; nothing else',
+               'symmetry reduction (S): the implementation is a function of the state captured by impl_state_key (heap array, counters up to order, flags, task times relative to the clock, deferred queue) and is invariant under renaming of identically configured tasks and under time translation',
                'core.run is driven with spin=0 and stopped (core.stop) by the clock hook once nothing is due and nothing is deferred',
                'recurring-task scenarios keep every clock reading at least 5 us away from any other pending due time unless it is that time itself']
 
 TICKS_PER_S = 3 * 10 ** 6        # family B: 1 tick = 1/3 us, so 1/3 s and 0.1 s are exact; jitter 1e-6 s = 3 ticks
 JIT_B = 3
+
+
+def acts_of(x):
+    """scheduling actions of a task config (kind, raises, defers[, acts]) or of a deferred function
+    (id, raises, spawns[, acts])"""
+    return x[3] if len(x) > 3 else ()
 
 
 # ------------------------------------------------------------------ pure-python port of the model
@@ -44,6 +52,27 @@ class Ref:
 
     def kind(self, i):
         return self.cfg[i][0]
+
+    LIMIT = 32              # iterations beyond the due entries before a loop is called a livelock (model slack: 64)
+    livelock = False
+
+    def do_act(self, a):
+        k = a[0]
+        if k == 'install': return self.install_when(a[1], a[2])
+        if k == 'after': return self.install_when(a[1], self.now + a[2])
+        if k == 'reinstall': return self.reinstall(a[1])
+        if k == 'suspend': self.tm_suspend(a[1]); return None
+        if k == 'resume': return self.tm_install(a[1])
+        raise ValueError(a)
+
+    def run_acts(self, acts):
+        for a in acts:
+            if self.do_act(a) is not None:
+                return True
+        return False
+
+    def due_count(self):
+        return sum(1 for e in self.heap if e[0] <= self.now)
 
     def tm_suspend(self, i):
         for k, e in enumerate(self.heap):
@@ -99,7 +128,8 @@ class Ref:
         k = self.cfg[i]
         self.dq = self.dq + list(k[2])
         self.ev.append(('fire', i, e[0], self.now))
-        if k[1]:
+        failed = self.run_acts(acts_of(k))
+        if failed or k[1]:
             return True
         if k[0][0] == 'rec':
             return self.rec_install(i) is not None
@@ -111,7 +141,8 @@ class Ref:
             for d in b:
                 self.ev.append(('call', d[0]))
                 self.dq = self.dq + list(d[2])
-                if d[1]:
+                failed = self.run_acts(acts_of(d))
+                if d[1] or failed:
                     self.ev.append(('raise',))
                     if not self.guard:
                         return True
@@ -119,7 +150,12 @@ class Ref:
 
     def run_once(self):
         zero = True
+        budget = self.due_count() + 1 + self.LIMIT
         while zero:
+            budget -= 1
+            if budget < 0:
+                self.livelock = True
+                return
             e, zero = self.get_next()
             if e is not None and self.process(e):
                 self.ev.append(('raise',)); return
@@ -130,7 +166,12 @@ class Ref:
         return not self.dq and (not self.heap or self.heap[0][0] > self.now)
 
     def run(self):
+        budget = 2 * self.due_count() + 2 + self.LIMIT
         while not self.quiescent():
+            budget -= 1
+            if budget < 0:
+                self.livelock = True
+                return
             e, _ = self.get_next()
             if e is not None and self.process(e):
                 self.ev.append(('raise',)); continue
@@ -139,11 +180,7 @@ class Ref:
     def step(self, o):
         k = o[0]
         err = None
-        if k == 'install': err = self.install_when(o[1], o[2])
-        elif k == 'after': err = self.install_when(o[1], self.now + o[2])
-        elif k == 'reinstall': err = self.reinstall(o[1])
-        elif k == 'suspend': self.tm_suspend(o[1])
-        elif k == 'resume': err = self.tm_install(o[1])
+        if k in ('install', 'after', 'reinstall', 'suspend', 'resume'): err = self.do_act(o)
         elif k == 'advance': self.now += o[1]
         elif k == 'todue':
             if self.heap: self.now = max(self.now, self.heap[0][0])
@@ -173,6 +210,7 @@ class Hang(Exception):
 
 
 HANGS = [0]
+MAX_FAILS = 20000
 LOOP_TIMEOUT = 3.0
 
 
@@ -258,7 +296,8 @@ class Impl:
 
         self.cfg = cfg
         self.tasks = []
-        for i, (kind, raises, defers) in enumerate(cfg):
+        for i, t in enumerate(cfg):
+            kind = t[0]
             if kind[0] == 'rec':
                 # interval / offset are handed over in milliseconds, as floats
                 iv_ms = float(F(kind[1] * 1000, self.ticks_per_s))
@@ -270,7 +309,9 @@ class Impl:
     ticks_per_s = TICKS_PER_S
 
     def clock(self):
-        if self.in_run:
+        # core.run is stopped at the top of an iteration only (the read made by get_next_task), never by the
+        # reads a callback makes through get_time()
+        if self.in_run and sys._getframe(1).f_code.co_name == 'get_next_task':
             core = self.core
             tm = self.tm
             if not core.deferredFns and (not tm.tasks or tm.tasks[0][0] > self.NOW[0]):
@@ -281,8 +322,26 @@ class Impl:
         self.trace.append(('fire', t.i, t.taskTime, self.NOW[0]))
         for d in self.cfg[t.i][2]:
             self.submit(d)
+        self.do_acts(acts_of(self.cfg[t.i]))
         if self.cfg[t.i][1]:
             raise Boom('task %d' % t.i)
+
+    def do_acts(self, acts):
+        """the scheduling actions of a callback, through the _Task API; an exception propagates"""
+        T = self.tasks
+        for a in acts:
+            k, j = a[0], a[1]
+            try:
+                if k == 'install': T[j].install_task(when=self.tf(a[2]))
+                elif k == 'after': T[j].install_task(delta=self.tf(a[2]))
+                elif k == 'reinstall': T[j].install_task()
+                elif k == 'suspend': T[j].suspend_task()
+                elif k == 'resume': T[j].resume_task()
+                else: raise ValueError(a)
+            except Exception:
+                self.trace.append(('act', k, j, False, None))
+                raise
+            self.trace.append(('act', k, j, True, T[j].taskTime))
 
     def submit(self, d):
         self.submitted.append(d[0])
@@ -292,6 +351,7 @@ class Impl:
         self.trace.append(('call', d[0]))
         for s in d[2]:
             self.submit(s)
+        self.do_acts(acts_of(d))
         if d[1]:
             raise Boom('deferred %d' % d[0])
 
@@ -351,7 +411,7 @@ class Impl:
 
 
 def canon_outcome(trace, heap, ctr, now, tasks, dqids, ct, showclock):
-    out = [len(trace)]
+    out = [sum(1 for e in trace if e[0] != 'act')]
     for e in trace:
         if e[0] == 'fire': out += [1, e[1], ct(e[1], e[2], 'due'), ct(e[1], e[3], 'at', e[2])]
         elif e[0] == 'call': out += [2, e[1]]
@@ -396,9 +456,68 @@ def tf_tick(t):
     return float(F(t, TICKS_PER_S))
 
 
+FINE = 2.0 ** -22            # mode 'fine': 1 tick = 2^-22 s = 0.238 us; every value used is an exact binary64
+
+
+def tf_fine(t):
+    return float(t) * FINE
+
+
+def ct_fine(i, x, what, due=None):
+    v = x * 2.0 ** 22
+    assert v == int(v), x
+    return int(v)
+
+
+FINER = 2.0 ** -25           # mode 'finer': 1 tick = 2^-25 s = 0.0298 us (exact up to 2^28 s)
+
+
+def tf_finer(t):
+    return float(t) * FINER
+
+
+def ct_finer(i, x, what, due=None):
+    v = x * 2.0 ** 25
+    assert v == int(v), x
+    return int(v)
+
+
+def tf_of(mode):
+    return float if mode == 'int' else tf_fine if mode == 'fine' else tf_finer if mode == 'finer' else tf_tick
+
+
+def boundary_histories():
+    """never-early probes: the clock strictly inside the last microseconds before a due time (t - 1.43 us ... t - 0.03 us,
+    including ~t-1e-6, ~t-5e-7, ~t-1e-7), on it and after it; a second task due 0 .. 2 us later, observed between
+    the two due times; clocks 0, 1000 s and (2^-22 unit only) 1.7e9 s.  All floats exact."""
+    out = []
+    for mode, unit_bases, probes, gaps in (
+            ('fine', (0, 1000 * 2 ** 22, 1700000000 * 2 ** 22), (6, 5, 4, 3, 2, 1), (0, 1, 3, 4, 5, 9)),
+            ('finer', (0, 1000 * 2 ** 25, 2 ** 27 * 2 ** 25), (40, 34, 33, 17, 7, 3, 1), (0, 1, 3, 7, 17, 33, 34, 67))):
+        for base in unit_bases:
+            for gap in gaps:
+                due = base + 100
+                ops = [('advance', base), ('install', 0, due), ('install', 1, due + gap)]
+                now = base
+                for k in probes:                      # before the first due time
+                    ops += [('advance', due - k - now), ('poll',), ('runonce',)]
+                    now = due - k
+                ops += [('advance', due - now), ('runonce',)]
+                now = due
+                if gap > 1:                           # strictly between the two due times
+                    mid = due + gap // 2
+                    ops += [('advance', mid - now), ('poll',), ('run',)]
+                    now = mid
+                    ops += [('advance', due + gap - 1 - now), ('runonce',)]
+                    now = due + gap - 1
+                ops += [('advance', due + gap - now), ('poll',), ('runonce',), ('advance', 50), ('run',)]
+                out.append(([ONE, ONE], ops, mode))
+    return out
+
+
 def impl_outcome(cfg, ops, mode):
     """mode: 'int' (clock in whole seconds = ticks), 'tick' (1/3 us ticks), 'slot' (same, shown as slot indices)"""
-    im = Impl(cfg, float if mode == 'int' else tf_tick)
+    im = Impl(cfg, tf_of(mode))
     try:
         for o in ops:
             im.step(o)
@@ -406,7 +525,7 @@ def impl_outcome(cfg, ops, mode):
         if HANGS[0] >= 3:
             raise
         return [99], im
-    ct = ct_int if mode == 'int' else ct_tick if mode == 'tick' else make_ct_slot(cfg)
+    ct = ct_int if mode == 'int' else ct_fine if mode == 'fine' else ct_finer if mode == 'finer' else ct_tick if mode == 'tick' else make_ct_slot(cfg)
     tasks = [(t.isScheduled, t.taskTime) for t in im.tasks]
     return canon_outcome(im.trace, im.heap_sorted(), im.counter_value(), im.NOW[0], tasks, im.pending_ids(), ct,
                          mode != 'slot'), im
@@ -433,15 +552,30 @@ def zc(x):
     return '(%d)' % x if x < 0 else str(x)
 
 
+def coq_act(a):
+    k = a[0]
+    if k == 'install': return 'AInstall %d %s' % (a[1], zc(a[2]))
+    if k == 'after': return 'AInstallAfter %d %s' % (a[1], zc(a[2]))
+    if k == 'reinstall': return 'AReinstall %d' % a[1]
+    if k == 'suspend': return 'ASuspend %d' % a[1]
+    if k == 'resume': return 'AResume %d' % a[1]
+    raise ValueError(a)
+
+
+def coq_acts(acts):
+    return '[' + ';'.join(coq_act(a) for a in acts) + ']'
+
+
 def coq_dfn(d):
-    return '(DF %d %s [%s])' % (d[0], 'true' if d[1] else 'false', ';'.join(coq_dfn(s) for s in d[2]))
+    return '(DF %d %s [%s] %s)' % (d[0], 'true' if d[1] else 'false', ';'.join(coq_dfn(s) for s in d[2]), coq_acts(acts_of(d)))
 
 
 def coq_cfg(cfg):
     ts = []
-    for kind, raises, defers in cfg:
+    for t in cfg:
+        kind, raises, defers = t[0], t[1], t[2]
         k = 'OneShot' if kind[0] == 'one' else '(Recurring %s %s)' % (zc(kind[1]), zc(kind[2]))
-        ts.append('mkT %s %s [%s]' % (k, 'true' if raises else 'false', ';'.join(coq_dfn(d) for d in defers)))
+        ts.append('mkT %s %s [%s] %s' % (k, 'true' if raises else 'false', ';'.join(coq_dfn(d) for d in defers), coq_acts(acts_of(t))))
     return '[' + ';'.join(ts) + ']'
 
 
@@ -477,6 +611,8 @@ def desc_of(cfg, ops, mode):
 
 def nontrivial(out):
     # at least one fire / call event in the trace
+    if out == [99]:                      # a library loop did not return: certainly worth looking at
+        return True
     n, k, i = out[0], 0, 1
     while k < n:
         tag = out[i]
@@ -516,7 +652,7 @@ def mk_packed_case(kind, cfg, prefix, alpha, mode, jit):
     coq = 'flat_map (fun o => canon_run tc_id true %d (run_ops true %s %s st0 (%s ++ o :: %s))) %s' % (
         len(cfg), zc(jit), coq_cfg(cfg), coq_ops(prefix), coq_ops(FLUSH), coq_ops(alpha))
     return Case(kind, coq, exp, key=(repr(cfg), repr(prefix), 'packed'), nontrivial=True,
-                desc={'cfg': repr(cfg), 'prefix': repr(prefix), 'mode': mode, 'packed_over': 'alphabet'})
+                desc={'cfg': repr(cfg), 'prefix': repr(prefix), 'mode': mode, 'packed_over': 'alphabet', 'letters': repr(list(alpha))})
 
 
 # ------------------------------------------------------------------ generators
@@ -609,7 +745,7 @@ def boundary_safe(cfg, t, owner=None):
     return True
 
 
-def gen_recurring(rng, epoch, nops=30):
+def gen_recurring(rng, epoch, nops=30, with_acts=False):
     """recurring-task history with the exact clock tracked by Ref; returns (cfg, ops) or None when a
     clock reading would come within MARGIN of another pending due time (floats could then order
     differently from exact arithmetic: not part of what is compared)"""
@@ -622,16 +758,22 @@ def gen_recurring(rng, epoch, nops=30):
         iv = rng.choice(IV_GRID_MS) * TICKS_PER_S / 1000
         assert iv.denominator == 1
         iv = int(iv)
-        off = rng.choice([0, 0, iv // 3, iv // 2, iv - 3000, rng.randrange(iv)])
-        cfg.append((('rec', iv, off), rng.random() < 0.1, ()))
+        off = rng.choice([0, 0, iv // 3, iv // 2, iv - 3000, rng.randrange(iv), iv + iv // 3, 2 * iv + 5000])
+        acts = ()
+        if with_acts and rng.random() < 0.7:
+            acts = tuple(rng.choice([('suspend', i), ('suspend', i), ('reinstall', i), ('suspend', rng.randrange(nt)),
+                                     ('resume', rng.randrange(nt)), ('reinstall', rng.randrange(nt))])
+                         for _ in range(rng.choice([1, 1, 2])))
+        cfg.append((('rec', iv, off), rng.random() < 0.1, (), acts))
     base = rng.choice(BASES_EPOCH if epoch else BASES_SMALL) * TICKS_PER_S + rng.randrange(TICKS_PER_S)
     ref = Ref(cfg, JIT_B)
     ops = []
 
-    def safe_now(t):
-        # the task whose own due time the clock is moved onto (ToDue) is exempt: the library then
-        # compares a float with itself
-        owner = ref.heap[0][2] if ref.heap and ref.heap[0][0] == t else None
+    def safe_now(t, todue=False):
+        # the task whose own due time the clock is moved onto by ToDue is exempt: the library then
+        # compares a float with itself.  An `advance` that lands exactly on a due time is not (the
+        # clock float is then computed along another path than the due float).
+        owner = ref.heap[0][2] if todue and ref.heap and ref.heap[0][0] == t else None
         for (w, n, i) in ref.heap:
             if i != owner and abs(w - t) < MARGIN:
                 return False
@@ -664,7 +806,7 @@ def gen_recurring(rng, epoch, nops=30):
         elif r < 0.32: push(('suspend', i))
         elif r < 0.37: push(('resume', i))
         elif r < 0.62:
-            if ref.heap and not safe_now(max(ref.now, ref.heap[0][0])):
+            if ref.heap and not safe_now(max(ref.now, ref.heap[0][0]), todue=True):
                 return None
             push(('todue',))
             push(rng.choice([('poll',), ('runonce',), ('poll',), ('run',)]))
@@ -699,6 +841,168 @@ def deferred_cases(tier):
     return out
 
 
+# ---- (C) callbacks with scheduling actions
+def act_alphabet(nt):
+    a = []
+    for j in range(nt):
+        a += [('install', j, 1), ('install', j, 3), ('after', j, 0), ('after', j, 1), ('reinstall', j), ('suspend', j), ('resume', j)]
+    return a
+
+
+def livelocks(cfg, ops, jit=1):
+    r = Ref(cfg, jit)
+    for o in ops:
+        r.step(o)
+        if r.livelock:
+            return True
+    return False
+
+
+def mk_packed_case_f(kind, cfg, prefix, alpha, jit=1):
+    """like mk_packed_case, letters whose history would spin (callbacks re-installing due tasks for ever) left out"""
+    letters = [o for o in alpha if not livelocks(cfg, list(prefix) + [o] + FLUSH, jit)]
+    if not letters:
+        return None
+    return mk_packed_case(kind, cfg, prefix, letters, 'int', jit)
+
+
+def random_acts(rng, nt, pmax=2, relnow=None):
+    n = rng.choice([0, 0, 1, 1, 2][:pmax + 3])
+    return tuple(rng.choice(act_alphabet(nt)) for _ in range(n))
+
+
+def gen_dfn_forest_acts(rng, nmax, nextid, nt):
+    def deco(d):
+        acts = random_acts(rng, nt) if rng.random() < 0.4 else ()
+        return (d[0], d[1], tuple(deco(c) for c in d[2]), acts)
+    return [deco(d) for d in gen_dfn_forest(rng, nmax, nextid)]
+
+
+def random_history_C(rng, length=60):
+    nt = rng.choice([2, 3, 4])
+    nextid = [0]
+    cfg = []
+    for i in range(nt):
+        defers = tuple(gen_dfn_forest_acts(rng, 2, nextid, nt)) if rng.random() < 0.3 else ()
+        cfg.append((('one',), rng.random() < 0.15, defers, random_acts(rng, nt) if rng.random() < 0.7 else ()))
+    for _ in range(20):
+        ops = []
+        for _ in range(length):
+            r = rng.random()
+            i = rng.randrange(nt)
+            if r < 0.25: ops.append(('install', i, rng.randrange(0, 12)))
+            elif r < 0.35: ops.append(('after', i, rng.choice([0, 1, 1, 2])))
+            elif r < 0.40: ops.append(('reinstall', i))
+            elif r < 0.46: ops.append(('suspend', i))
+            elif r < 0.50: ops.append(('resume', i))
+            elif r < 0.68: ops.append(('advance', rng.choice([0, 1, 1, 2])))
+            elif r < 0.72: ops.append(('todue',))
+            elif r < 0.84: ops.append(('poll',))
+            elif r < 0.88: ops.append(('defer', gen_dfn_forest_acts(rng, 2, nextid, nt)[0]))
+            elif r < 0.96: ops.append(('runonce',))
+            else: ops.append(('run',))
+        ops += [('advance', 30), ('runonce',), ('poll',)]
+        if not livelocks(cfg, ops):
+            return cfg, ops
+    return None
+
+
+def gen_recurring_acts(rng, epoch):
+    """recurring tasks whose callbacks suspend / re-install themselves or each other"""
+    for _ in range(50):
+        g = gen_recurring(rng, epoch, nops=20, with_acts=True)
+        if g is not None and not livelocks(g[0], g[1], JIT_B):
+            return g
+    return None
+
+
+# ---- (S) symmetry-reduced exhaustive exploration
+def rel_alphabet(nt):
+    a = []
+    for i in range(nt):
+        a += [('rel', i, 1), ('rel', i, 2), ('after', i, 1), ('reinstall', i), ('suspend', i), ('resume', i)]
+    return a + [('advance', 1), ('poll',), ('runonce',)]
+
+
+def resolve_rel(seq):
+    """'rel' letters (install_task(when=now+d)) become absolute installs; the clock only moves by 'advance 1'"""
+    out, clock = [], 0
+    for o in seq:
+        if o[0] == 'rel':
+            out.append(('install', o[1], clock + o[2]))
+        else:
+            out.append(o)
+            if o[0] == 'advance':
+                clock += o[1]
+    return out
+
+
+def impl_state_key(im):
+    """the whole state of the implementation (heap ARRAY as laid out, counters, flags, task times, clock, deferred
+    queue) up to task renaming (within a config class), time translation and order-preserving counter renaming"""
+    now = im.NOW[0]
+    arr = [(w, n, t.i) for (w, n, t) in im.tm.tasks]
+    ranks = {n: k for k, n in enumerate(sorted(n for (_, n, _) in arr))}
+    pos = {i: (k, ranks[n], w - now) for k, (w, n, i) in enumerate(arr)}
+    sig = []
+    for t in im.tasks:
+        tt = None if t.taskTime is None else t.taskTime - now
+        sig.append((repr(im.cfg[t.i]), tt is None, tt or 0, t.isScheduled, pos.get(t.i, (-1, -1, 0))))
+    return (tuple(sorted(sig)), tuple(im.pending_ids()))
+
+
+def explore(cfg, depth, reps=1, mode='int'):
+    """breadth-first over the implementation's own states; returns {state key: [representative histories]}
+    for every state reachable by <= depth letters"""
+    alpha = rel_alphabet(len(cfg))
+
+    def run(seq):
+        im = Impl(cfg, tf_of(mode))
+        for o in resolve_rel(seq):
+            im.step(o)
+        return im
+    seen = {impl_state_key(run(())): [()]}
+    frontier = [()]
+    for d in range(depth):
+        nxt = []
+        for seq in frontier:
+            for o in alpha:
+                s2 = seq + (o,)
+                k = impl_state_key(run(s2))
+                if k not in seen:
+                    seen[k] = [s2]
+                    nxt.append(s2)
+                elif len(seen[k]) < reps and len(s2) > len(seen[k][0]):
+                    seen[k].append(s2)          # a second, longer way into the same state
+        frontier = nxt
+    return seen
+
+
+def symmetric_cases(cfg, depth, kind, reps=1, mode='int'):
+    """one packed case per (state, representative): the representative history followed by every letter"""
+    out = []
+    alpha = rel_alphabet(len(cfg))
+    states = explore(cfg, depth, reps, mode)
+    for key, seqs in states.items():
+        for seq in seqs:
+            exp = []
+            coq_parts = []
+            for o in alpha:
+                ops = resolve_rel(list(seq) + [o]) + FLUSH
+                e, _ = impl_outcome(cfg, ops, mode)
+                exp += e
+                coq_parts.append(coq_ops(ops))
+            coq = 'flat_map (fun ops => canon_run tc_id true %d (run_ops true 1 %s st0 ops)) [%s]' % (
+                len(cfg), coq_cfg(cfg), ';'.join(coq_parts))
+            out.append(Case(kind, coq, exp, key=(repr(cfg), repr(seq), 'sym', mode), nontrivial=True,
+                            desc={'cfg': repr(cfg), 'prefix': repr(resolve_rel(seq)), 'mode': mode, 'packed_over': 'rel-alphabet',
+                                  'letters': repr(alpha)}))
+    return out, len(states)
+
+
+EXHAUSTIVE_NOTE = {}
+
+
 def cases(rng, tier):
     HANGS[0] = 0
     out = []
@@ -724,10 +1028,77 @@ def cases(rng, tier):
             if L == 3 and rng.random() >= 0.3:
                 continue
             out.append(mk_packed_case('A-exhaustive-raising', cfg3, prefix, alpha3, 'int', 1))
+    # (S) symmetry-reduced exhaustive exploration: every history of <= depth+1 letters over 4 one-shot tasks and the
+    # 27-letter relative alphabet, one representative per implementation state (see impl_state_key)
+    plain4 = [ONE, ONE, ONE, ONE]
+    d4 = 6 if not big else 9
+    cs, n4 = symmetric_cases(plain4, d4, 'S-symmetric-4tasks', reps=1 if not big else 2)
+    out += cs
+    # the same exploration with a clock that moves in steps of 2^-22 s (0.24 us): the clock sits 1, 2, ... ticks
+    # before due times, all floats exact (a release "within the timer resolution" shows here)
+    cs, nf = symmetric_cases(plain4, 5 if not big else 7, 'S-symmetric-4tasks-fine-clock', reps=1, mode='fine')
+    out += cs
+    for cfgb, ops, mode in boundary_histories():
+        out.append(mk_case('F-boundary-sub-microsecond', cfgb, ops, mode, 1))
+    cs, nf2 = symmetric_cases(plain4, 4 if not big else 6, 'S-symmetric-4tasks-fine-clock', reps=1, mode='finer')
+    out += cs
+    mixed3 = [ONE, (('one',), True, ()), ONE, (('one',), False, (), (('suspend', 0),))]
+    d3 = 4 if not big else 6
+    cs, n3 = symmetric_cases(mixed3, d3, 'S-symmetric-raising+acting', reps=1)
+    out += cs
+    note3 = ''
+    if big:
+        defer3 = [(('one',), False, ((0, True, ()), (1, False, ()))), (('one',), True, ((2, False, ((3, False, ()),)),)), ONE]
+        cs, n5 = symmetric_cases(defer3, 5, 'S-symmetric-deferring', reps=1)
+        out += cs
+        note3 = '; to length 6 over {deferring [raising fn, fn], raising and deferring a spawning fn, plain}: %d states x 21 letters' % n5
+    EXHAUSTIVE_NOTE['S'] = ('every history of length <= %d over 4 interchangeable one-shot tasks and the 27 letters {install_task(when=now+1|now+2), '
+                            'install_task(delta=1), install_task(), suspend, resume} x task + {advance 1, poll, run_once}, followed by a flush, '
+                            'explored breadth-first on the IMPLEMENTATION: %d distinct states (heap array layout, counters up to order, flags, '
+                            'task times relative to the clock, up to task renaming) each extended by all 27 letters; the same to length %d over '
+                            '{plain, raising, plain, plain-with-callback-suspending-task-0}: %d states x 27 letters%s; the 4-task exploration again to length %d with a '
+                            'clock unit of 2^-22 s (%d states) and to length %d with 2^-25 s (%d states); 42 never-early boundary histories (clock 0.03 .. 1.4 us '
+                            'before / between / on due times, exact floats, clocks 0, 1000 s, 1.7e9 s)' % (d4 + 1, n4, d3 + 1, n3, note3, (5 if not big else 7) + 1, nf, (4 if not big else 6) + 1, nf2))
+    # raw sample that does not use the reduction: uniformly drawn histories of length 7 over the same 4 tasks and 27 letters
+    ralpha4 = rel_alphabet(4)
+    for n in range(300 if not big else 5000):
+        seq = [rng.choice(ralpha4) for _ in range(7)]
+        out.append(mk_case('S-raw-sample-len7-4tasks', plain4, resolve_rel(seq) + FLUSH, 'int' if n % 3 else 'fine', 1))
+    # (C) callbacks that install / re-install / suspend / resume themselves or the other task
+    alpha2 = alphabet(2)
+    single = [()] + [(a,) for a in act_alphabet(2)]
+    preludes = [(), (('install', 0, 1), ('install', 1, 1)), (('install', 1, 1), ('install', 0, 1)), (('install', 0, 1), ('install', 1, 2)),
+                (('install', 0, 2), ('install', 1, 1))] + [(o,) for o in alpha2]
+    for a0 in single:
+        for a1 in single:
+            if not a0 and not a1:
+                continue
+            cfgc = [(('one',), False, (), a0), (('one',), False, (), a1)]
+            for pre in preludes:
+                if not big and len(pre) == 1 and rng.random() >= 0.08:
+                    continue
+                c = mk_packed_case_f('C-callback-actions', cfgc, pre, alpha2)
+                if c is not None:
+                    out.append(c)
+    for _ in range(150 if not big else 1500):
+        g = random_history_C(rng)
+        if g is not None:
+            out.append(mk_case('C-random-60', g[0], g[1], 'int', 1))
+    for epoch, mode in ((False, 'tick'), (True, 'slot')):
+        for _ in range(80 if not big else 800):
+            g = gen_recurring_acts(rng, epoch)
+            if g is not None:
+                out.append(mk_case('C-recurring-actions', g[0], g[1], mode, JIT_B))
+    global RULE
+    RULE = RULE_BASE + '  EXHAUSTIVE in this run: (S) ' + EXHAUSTIVE_NOTE['S'] + ('; (A) every history of length <= %d over 2 one-shot tasks and the '
+            '15 absolute letters without symmetry reduction%s; (D) every raising subset of flat deferred batches of <= 6 and of every forest of <= %d '
+            'functions, through run_once and run; (C) every pair of single-action callbacks over 2 tasks (15 x 15 - 1 configurations) with %s.'
+            % ((4, ' plus 30% of length 5', 5, 'every prelude of the list x every letter') if big else
+               (3, ' plus a quarter of length 4', 4, 'the 5 multi-task preludes and 8% of the one-letter preludes x every letter')))
     # (A) random long histories
-    for _ in range(40 if tier != 'thorough' else 600):
+    for n in range(40 if tier != 'thorough' else 600):
         cfg, ops = random_history_A(rng)
-        out.append(mk_case('A-random-200', cfg, ops, 'int', 1))
+        out.append(mk_case('A-random-200', cfg, ops, 'int' if n % 2 == 0 else 'fine', 1))
     # (B) recurring
     want = 200 if tier != 'thorough' else 2000
     for epoch, mode, kind in ((False, 'tick', 'B-recurring-tick'), (True, 'slot', 'B-recurring-epoch-slot')):
@@ -743,7 +1114,7 @@ def cases(rng, tier):
     for epoch, mode in ((False, 'tick'), (True, 'slot')):
         for ivms in IV_GRID_MS:
             iv = int(ivms * TICKS_PER_S / 1000)
-            for off in (0, iv // 3, iv - 3000):
+            for off in (0, iv // 3, iv - 3000, iv + iv // 3, 3 * iv + 600):
                 for b in (BASES_EPOCH if epoch else BASES_SMALL):
                     base = b * TICKS_PER_S + 777
                     cfg = [(('rec', iv, off), False, ())]
@@ -776,10 +1147,19 @@ def cases(rng, tier):
 
 
 # ------------------------------------------------------------------ direct predicate (implementation only)
+def has_acts(cfg, ops):
+    def walk(ds):
+        for d in ds:
+            yield d
+            yield from walk(d[2])
+    return any(acts_of(t) for t in cfg) or any(acts_of(d) for t in cfg for d in walk(t[2])) or \
+        any(acts_of(d) for o in ops if o[0] == 'defer' for d in walk([o[1]]))
+
+
 def check_history(cfg, ops, mode, fails, stats):
     """Weakest reading of C14 on one history.  Bookkeeping (not a scheduler): which task is pending
     with which due time and installation rank, which deferred functions were submitted."""
-    im = Impl(cfg, float if mode == 'int' else tf_tick)
+    im = Impl(cfg, tf_of(mode))
     pending = {}            # i -> [due or None, rank]
     rank = itertools.count()
     last_fire_at = {}
@@ -789,16 +1169,51 @@ def check_history(cfg, ops, mode, fails, stats):
     fired_any = False
 
     def fail(kind, **kw):
+        if len(fails) >= MAX_FAILS:          # badly broken tree: enough evidence, keep the check fast
+            return
         d = dict(desc); d['kind'] = kind; d.update(kw)
         fails.append(d)
 
+    acted = [False]          # a callback installed something during the current op
+    rearmed = []             # recurring tasks re-installed by process_task although their callback suspended them
+
     def absorb(opname):
-        """process the new trace entries produced by one op"""
+        """process the new trace entries produced by one op, in order: firings, the scheduling actions of the
+        callbacks (they change what is pending), deferred calls"""
         nonlocal seen_trace, fired_any
         new = im.trace[seen_trace:]
         seen_trace = len(im.trace)
         raised = False
+        cur = [None, False, False]          # callback being followed: ('task', i) / ('dfn', id); an action failed; suspended itself
+
+        def close():
+            nonlocal raised
+            if cur[0] is not None and cur[0][0] == 'task':
+                i = cur[0][1]
+                if cfg[i][1] or cur[1]:
+                    raised = True
+                elif cfg[i][0][0] == 'rec':
+                    if cur[2]:
+                        rearmed.append(i)
+                    pending[i] = [None, next(rank)]          # process_task re-installs it
+            cur[0], cur[1], cur[2] = None, False, False
+
         for e in new:
+            if e[0] == 'act':
+                _, kind, j, ok, tt = e
+                if not ok:
+                    cur[1] = True
+                elif kind == 'suspend':
+                    pending.pop(j, None)
+                    if cur[0] == ('task', j):
+                        cur[2] = True
+                else:
+                    pending[j] = [tt, next(rank)]
+                    acted[0] = True
+                    if cur[0] == ('task', j):
+                        cur[2] = False
+                continue
+            close()
             if e[0] == 'fire':
                 fired_any = True
                 _, i, due, at = e
@@ -817,18 +1232,22 @@ def check_history(cfg, ops, mode, fails, stats):
                         fail('fired-out-of-order', task=i, before=j, due=repr(due), other_due=repr(dj))
                 del pending[i]
                 last_fire_at[i] = at
-                if cfg[i][1]:
-                    raised = True
-                elif cfg[i][0][0] == 'rec':
-                    pending[i] = [None, next(rank)]
+                cur[0] = ('task', i)
             elif e[0] == 'call':
                 calls_seen.append(e[1])
+                cur[0] = ('dfn', e[1])
+        close()
         # the recurring tasks re-installed during this op now show their next time
         for i, p in pending.items():
             if p[0] is None:
                 p[0] = im.tasks[i].taskTime
                 if not (p[0] > last_fire_at[i]):
                     fail('recurring-next-not-after-fire', task=i, next=repr(p[0]), fired_at=repr(last_fire_at[i]))
+        queued = {t.i for (_, _, t) in im.tm.tasks}
+        for i in rearmed:
+            if i in queued:
+                fail('recurring-rearmed-after-self-suspend', task=i, op=opname)
+        del rearmed[:]
         return raised
 
     for o in ops:
@@ -848,11 +1267,13 @@ def check_history(cfg, ops, mode, fails, stats):
                 fail('recurring-first-slot-not-strictly-after-install', task=o[1])
         elif k == 'suspend':
             pending.pop(o[1], None)
+        acted[0] = False
         raised = absorb(k)
         now = im.NOW[0]
         if k in ('runonce', 'run', 'poll'):
             stats['evaluations'] += 1
-            due_left = [j for j, (dj, rj) in pending.items() if dj is not None and dj <= now]
+            # a callback that installs a due task in the last iteration legitimately leaves it for the next pass
+            due_left = [] if acted[0] else [j for j, (dj, rj) in pending.items() if dj is not None and dj <= now]
             if k == 'poll':
                 fired = [e for e in im.trace[before:] if e[0] == 'fire']
                 if len(fired) > 1:
@@ -870,6 +1291,11 @@ def check_history(cfg, ops, mode, fails, stats):
             fail('task-queued-twice', heap=ids_in_heap)
         if sorted(ids_in_heap) != sorted(pending):
             fail('queue-differs-from-pending', heap=sorted(ids_in_heap), pending=sorted(pending))
+    if has_acts(cfg, ops):
+        # callbacks that re-install or suspend tasks: "everything fires exactly once in the end" is not implied
+        if fired_any or calls_seen:
+            stats['nontrivial'].add((repr(cfg), repr(ops)))
+        return im
     # flush: everything queued or due must run in the end, whatever raised before
     horizon = max([p[0] for p in pending.values() if p[0] is not None] + [im.NOW[0]])
     im.NOW[0] = horizon
@@ -957,8 +1383,11 @@ def direct(rng, tier, focus=()):
     return fails, {'evaluations': stats['evaluations'], 'distinct_nontrivial': len(stats['nontrivial']),
                    'exhaustive': True,
                    'exhaustive_domain': 'all op sequences of length <= %d over the 15-letter alphabet on 2 one-shot tasks; every raising '
-                                        'subset of flat deferred batches of <= 6 and of all forests of <= %d functions'
-                                        % ((4, 5) if tier == 'thorough' else (3, 4)),
+                                        'subset of flat deferred batches of <= 6 and of all forests of <= %d functions; every state of the '
+                                        'implementation reachable in <= %d letters of the 27-letter relative alphabet over 4 one-shot tasks (up to task '
+                                        'renaming / time translation) x every letter, and the same to 5 letters with a 2^-22 s clock unit; every pair of '
+                                        'single-action callbacks over 2 tasks x 3 preludes x 3 drivers'
+                                        % ((4, 5, 7) if tier == 'thorough' else (3, 4, 6)),
                    'samples': samples}
 
 
@@ -990,10 +1419,43 @@ def _direct(rng, tier, focus, fails, stats, samples):
             if L == 3 and not big and rng.random() < 0.7:
                 continue
             check_history(cfg3, list(seq), 'int', fails, stats)
-    for _ in range(150 if not big else 3000):
+    for n in range(150 if not big else 3000):
         cfg, ops = random_history_A(rng)
-        check_history(cfg, ops, 'int', fails, stats)
+        check_history(cfg, ops, 'int' if n % 2 == 0 else 'fine', fails, stats)
+    for cfgb, ops, mode in boundary_histories():
+        check_history(cfgb, ops, mode, fails, stats)
     samples.append({'direct': 'pending-set bookkeeping over random histories of length 200', 'alphabet': repr(alpha)})
+    # 3b. symmetry-reduced exploration of 4 tasks (every state reachable in <= 6 letters, then every letter)
+    plain4 = [ONE, ONE, ONE, ONE]
+    ralpha = rel_alphabet(4)
+    for key, seqs in explore(plain4, 6 if not big else 7).items():
+        for o in ralpha:
+            check_history(plain4, resolve_rel(list(seqs[0]) + [o]), 'int', fails, stats)
+    for key, seqs in explore(plain4, 5, mode='fine').items():
+        for o in ralpha:
+            check_history(plain4, resolve_rel(list(seqs[0]) + [o]), 'fine', fails, stats)
+    # 3c. callbacks with scheduling actions; the recorded finding first
+    selfsusp = [(('rec', 3 * TICKS_PER_S, 0), False, (), (('suspend', 0),))]
+    check_history(selfsusp, [('advance', 777, 777), ('reinstall', 0), ('todue',), ('poll',), ('todue',), ('poll',)], 'tick', fails, stats)
+    samples.append({'direct': 'recurring task whose callback suspends itself (finding C14-recurring-self-suspend-rearmed)', 'cfg': repr(selfsusp)})
+    single = [()] + [(a,) for a in act_alphabet(2)]
+    preludes = [(('install', 0, 1), ('install', 1, 1)), (('install', 1, 1), ('install', 0, 2)), (('install', 0, 1),)]
+    for a0 in single:
+        for a1 in single:
+            cfgc = [(('one',), False, (), a0), (('one',), False, (), a1)]
+            for pre in preludes:
+                for tail in ([('advance', 1), ('runonce',), ('advance', 1), ('runonce',)], [('advance', 2), ('run',)], [('advance', 1), ('poll',), ('poll',), ('advance', 3), ('poll',)]):
+                    ops = list(pre) + tail
+                    if not livelocks(cfgc, ops):
+                        check_history(cfgc, ops, 'int', fails, stats)
+    for _ in range(300 if not big else 3000):
+        g = random_history_C(rng)
+        if g is not None:
+            check_history(g[0], g[1], 'int', fails, stats)
+    for _ in range(100 if not big else 1000):
+        g = gen_recurring_acts(rng, rng.random() < 0.5)
+        if g is not None:
+            check_history(g[0], g[1], 'tick', fails, stats)
     # 4. recurring
     n = 0
     while n < (300 if not big else 5000):
@@ -1014,8 +1476,8 @@ def _direct(rng, tier, focus, fails, stats, samples):
                 fails.append({'kind': 'direct-crash-on-focus', 'exc': repr(e)[:200], 'cfg': d['cfg'], 'ops': d['ops']})
         elif isinstance(d, dict) and 'prefix' in d:
             cfg = ast.literal_eval(d['cfg'])
-            for o in alphabet(len(cfg)):
-                check_history(cfg, list(ast.literal_eval(d['prefix'])) + [o] + FLUSH, 'int', fails, stats)
+            for ops in packed_histories(d):
+                check_history(cfg, ops, 'int', fails, stats)
 
 
 def _has_raising_before_other(cfg, ops):
@@ -1030,10 +1492,34 @@ def _has_raising_before_other(cfg, ops):
     return any(d[1] for d in fns) and len(fns) >= 2
 
 
+def packed_histories(d):
+    """the histories a packed case stands for (desc of mk_packed_case / symmetric_cases)"""
+    import ast
+    prefix = list(ast.literal_eval(d['prefix']))
+    letters = ast.literal_eval(d['letters']) if 'letters' in d else alphabet(len(ast.literal_eval(d['cfg'])))
+    clock = sum(o[1] for o in prefix if o[0] == 'advance')
+    out = []
+    for o in letters:
+        if o[0] == 'rel':
+            o = ('install', o[1], clock + o[2])
+        out.append(prefix + [o] + FLUSH)
+    return out
+
+
 def classify(failure):
     """C14-deferred-batch-lost (status fixed: suppresses nothing, only names the cause): the deferred calls
     differ from the submissions and the history submits a raising function among others"""
     import ast
+    if failure.get('kind') == 'recurring-rearmed-after-self-suspend':
+        # C14-recurring-self-suspend-rearmed: the task is recurring and its OWN callback suspends it
+        try:
+            cfg = ast.literal_eval(failure['cfg'])
+            t = cfg[failure['task']]
+        except Exception:
+            return None
+        if t[0][0] == 'rec' and ('suspend', failure['task']) in acts_of(t):
+            return 'C14-recurring-self-suspend-rearmed'
+        return None
     if failure.get('kind') == 'deferred-not-once-in-order':
         try:
             cfg, ops = ast.literal_eval(failure['cfg']), ast.literal_eval(failure['ops'])
